@@ -42,6 +42,9 @@ pub enum Tok {
 pub enum Who {
     OriginalDeployer,
     OtherReusingSalt,
+    /// the payer named in the request is the token service's own address (it holds enough of the gas token): whether
+    /// the service may pay for itself is not decided by the statement, but an accepted request must move the payment
+    TheServiceItself,
 }
 
 #[derive(Clone, Copy, Debug, Serialize, Deserialize, PartialEq, Eq)]
@@ -138,7 +141,7 @@ impl Property for C18 {
     fn strategy(&self, _tier: Tier) -> BoxedStrategy<Case> {
         (
             tok(),
-            prop_oneof![3 => Just(Who::OriginalDeployer), 1 => Just(Who::OtherReusingSalt)],
+            prop_oneof![6 => Just(Who::OriginalDeployer), 2 => Just(Who::OtherReusingSalt), 1 => Just(Who::TheServiceItself)],
             prop_oneof![6 => Just(Dest::Trusted), 1 => Just(Dest::NeverTrusted), 1 => Just(Dest::Removed), 1 => Just(Dest::HubItself), 1 => Just(Dest::Empty), 1 => Just(Dest::TrustedOtherCase), 1 => Just(Dest::TrustedTrailingSpace), 2 => Just(Dest::TrustedMixedCase)],
             prop_oneof![1 => Just(GasC::Zero), 1 => Just(GasC::Negative), 5 => (1u16..500).prop_map(GasC::Affordable), 1 => Just(GasC::ExactBalance), 1 => Just(GasC::BalancePlusOne)],
             prop_oneof![6 => Just(true), 1 => Just(false)],
@@ -267,8 +270,13 @@ impl Property for C18 {
         let caller = match case.who {
             Who::OriginalDeployer => deployer.clone(),
             Who::OtherReusingSalt => other.clone(),
+            Who::TheServiceItself => {
+                w.fund_gas(&w.its.id, BAL);
+                cx.label("payer_is_the_token_service_itself");
+                w.its.id.clone()
+            }
         };
-        if !canonical_entry && case.who == Who::OtherReusingSalt {
+        if !canonical_entry && case.who != Who::OriginalDeployer {
             registered = false; // the id is bound to the caller's own (deployer, salt) pair
             cx.label("foreign_caller_reusing_salt");
         }
@@ -342,6 +350,11 @@ impl Property for C18 {
         let ok = matches!(r, Ok(Ok(_)));
         if zero_gas_undecided {
             cx.count("either");
+        }
+        if case.who == Who::TheServiceItself && expect_ok && !ok {
+            cx.count("either");
+            ensure_p!(snapshot(env) == snap0 && events_len(env) == ev0, "refused remote deployment changed state");
+            return Ok(());
         }
         if !expect_ok && !(zero_gas_undecided && ok) {
             if zero_gas_undecided {
